@@ -4,6 +4,9 @@
 package consul
 
 import (
+	"context"
+	"fmt"
+
 	"github.com/hashicorp/go-hclog"
 	"github.com/hashicorp/go-metrics"
 
@@ -16,6 +19,7 @@ import (
 	"github.com/hashicorp/consul/agent/structs"
 	"github.com/hashicorp/consul/agent/token"
 	"github.com/hashicorp/consul/api"
+	"github.com/hashicorp/consul/logging"
 )
 
 // VerifNewShell builds a *Server with only the fields populated that the leader
@@ -99,4 +103,48 @@ func VerifSessionTimerCount(s *Server) int                          { return s.s
 // VerifSetQueryMeta runs the real (*Server).SetQueryMeta (index forced >= 1 etc.).
 func VerifSetQueryMeta(s *Server, m blockingquery.ResponseMeta, token string) {
 	s.SetQueryMeta(m, token)
+}
+
+// ---- federation (C19): the real replication loops of a secondary datacenter's leader
+
+// VerifShellConfig is DefaultConfig for a server shell of datacenter dc.
+func VerifShellConfig(dc, primary string) *Config {
+	cfg := DefaultConfig()
+	cfg.Datacenter = dc
+	cfg.PrimaryDatacenter = primary
+	cfg.NodeName = "sim-leader-" + dc
+	cfg.ACLsEnabled = true
+	cfg.ACLTokenReplication = true
+	return cfg
+}
+
+func VerifSetReplicationToken(s *Server, tok string) {
+	s.tokens.UpdateReplicationToken(tok, token.TokenSourceConfig)
+}
+
+// VerifRunReplicator runs one of the leader's replication routines until ctx is cancelled:
+// "policies", "roles", "tokens" (runACLReplicator as started by startACLReplication) or
+// "config" (the Replicator built exactly as NewServer builds configReplicator).
+func VerifRunReplicator(ctx context.Context, s *Server, what string) error {
+	switch what {
+	case "policies":
+		return s.runACLPolicyReplicator(ctx)
+	case "roles":
+		return s.runACLRoleReplicator(ctx)
+	case "tokens":
+		return s.runACLTokenReplicator(ctx)
+	case "config":
+		r, err := NewReplicator(&ReplicatorConfig{
+			Name:     logging.ConfigEntry,
+			Delegate: &FunctionReplicator{ReplicateFn: s.replicateConfig, Name: "config-entries"},
+			Rate:     s.config.ConfigReplicationRate,
+			Burst:    s.config.ConfigReplicationBurst,
+			Logger:   s.logger,
+		})
+		if err != nil {
+			return err
+		}
+		return r.Run(ctx)
+	}
+	return fmt.Errorf("unknown replicator %q", what)
 }
